@@ -468,6 +468,51 @@ def r15(ctx, rep):
               file=f["file"], line=f["l"], fn=f["path"])
 
 
+def r16(ctx, rep):
+    """The frame of `append` takes its column names position by position: the top's name, and where the top column has none (an un-aliased
+    expression) the bottom's. Dropping the second half leaves a column of the result without the name the frame promises."""
+    import re
+    rep.rule("C05.R16", "append: a merged column is named after the top column, else after the bottom column at the same position, else not at all", floor=3)
+    syn = ctx.syn
+    f = syn.fn("transforms::append", crate="prqlc")
+    loc = dict(file=f["file"], fn=f["path"])
+    arm = None
+    for m in matches_of(f["body"]):
+        for a in m["arms"]:
+            singles = [x for x in walk(a["pat"]) if x.get("k") == "p_struct" and last_seg(x["p"]) == "Single"]
+            if len(singles) == 2 and a["pat"].get("k") == "p_tuple":
+                arm, top_p, bot_p = a, singles[0], singles[1]
+    if arm is None:
+        raise AnchorMissing("append: the arm that merges two LineageColumn::Single")
+    def bound(p_, field):
+        d = {x[0]: x[1] for x in p_["f"]}
+        v = d.get(field)
+        return v.get("n") if isinstance(v, dict) and v.get("k") == "p_ident" else None
+    nt, nb = bound(top_p, "name"), bound(bot_p, "name")
+    rep.check(bool(nt) and bool(nb), "append:both-names-read", f"the merging arm binds the name of the top column ({nt}) and of the bottom column ({nb}): a name that is not read cannot be given to the result", line=arm["l"], **loc)
+    if not (nt and nb):
+        return
+    # the decision over (top name, bottom name)
+    table = {}
+    for m in matches_of(arm["body"]):
+        if show(m["e"]).replace(" ", "") != f"({nt},{nb})":
+            continue
+        for a in m["arms"]:
+            names = [show(dict(x["f"]).get("name")) for x in walk(a["body"]) if x.get("k") == "struct" and last_seg(x["p"]) == "Single" and "name" in dict(x["f"])]
+            for alt in pat_alts(a["pat"]):
+                key = re.sub(r"Some\(\w+\)", "Some", show(alt).replace(" ", ""))
+                bnd = re.findall(r"Some\((\w+)\)", show(alt))
+                table[key] = (names[0] if names else None, bnd)
+    want_none = table.get("(None,None)", (None,))[0] == "None"
+    nn = table.get("(None,Some)")
+    want_bottom = nn is not None and nn[1] and nn[0] == f"Some({nn[1][0]})"
+    st = table.get("(Some,_)") or table.get("(Some,None)")
+    want_top = st is not None and st[1] and st[0] == f"Some({st[1][0]})"
+    rep.check(want_bottom, "append:unnamed-top-takes-bottom-name", f"for (top unnamed, bottom named) the merged column takes the bottom's name (decision table found: {table}): "
+              "`select {x + 1, y} | append (.. select {k = .., y = ..})` otherwise yields a first column without the name `k`", line=arm["l"], **loc)
+    rep.check(want_top and want_none, "append:top-name-first", f"a named top column keeps its name, two unnamed columns stay unnamed (decision table found: {table})", line=arm["l"], **loc)
+
+
 def run(ctx, rep):
-    for r in (r1, r2, r3, r4, r5, r6, r7, r8, r9, r10, r12, r13, r14, r15):
+    for r in (r1, r2, r3, r4, r5, r6, r7, r8, r9, r10, r12, r13, r14, r15, r16):
         rep.guard(r, ctx)
